@@ -602,3 +602,39 @@ Definition retire_schedule (T : tables) (d : nat) (k : N) : list action :=
 (* the previous generation of retirement d is closed *)
 Definition gen_closed (s : state) (d : nat) : bool :=
   match nth_error (rets s) d with Some r => rt_closed r | None => false end.
+
+(* ---------------------------------------------------------------------------------------------
+   waitReloadReadyOrSignal: the main loop waits for the new generation to become ready.  The loop takes
+   events - readiness reported (ok / failed), a reload/suspend/hangup signal that is ignored, a
+   termination signal - and the timer.  Virtual clock: every event carries the instant at which it
+   arrives.  Where the source arms the timer is regenerated from cmd/run.go. *)
+Inductive ready_deadline :=
+| RFixed      (* one timer, created before the loop: the deadline is the absolute instant origin + timeout *)
+| RRearmed    (* the timer/After expression is evaluated inside the loop: every iteration starts a new timeout *)
+| RNone.      (* no timeout case / shape not understood *)
+
+Inductive wev := WReady (ok : bool) | WIgnored | WTerm.
+Inductive wres := WRReady | WRFailed | WRSignal | WRTimeout.
+
+(* [deadline]: the instant at which the armed timer fires; returns the outcome and the instant of return
+   (when the events run out nothing else ever happens, so the timer fires) *)
+Fixpoint ready_wait (mode : ready_deadline) (timeout deadline : N) (evs : list (N * wev)) : wres * N :=
+  match evs with
+  | [] => (WRTimeout, deadline)
+  | (t, e) :: rest =>
+      if (deadline <=? t)%N then (WRTimeout, deadline)
+      else match e with
+           | WReady true => (WRReady, t)
+           | WReady false => (WRFailed, t)
+           | WTerm => (WRSignal, t)
+           | WIgnored => ready_wait mode timeout (match mode with RRearmed => (t + timeout)%N | _ => deadline end) rest
+           end
+  end.
+
+(* how many times a timeout is armed while k ignored signals arrive and then readiness *)
+Definition ready_wait_arms (mode : ready_deadline) (k : nat) : nat :=
+  match mode with RFixed => 1 | RRearmed => S k | RNone => 0 end.
+
+Definition ready_deadline_ok (mode : ready_deadline) : bool := match mode with RFixed => true | _ => false end.
+Definition only_ignored (evs : list (N * wev)) : bool :=
+  forallb (fun x => match snd x with WIgnored => true | _ => false end) evs.
